@@ -5,9 +5,14 @@
    Vocabulary (Proofs/ChoiceProofs.v, ChoiceTop.v):
      key w            lower-cased name of a word with its selection star removed
      restar b w       the master word w with its star set to b (quote token and line kept)
-     plus_form src    every word bare and un-starred, a "+" somewhere, no blank piece after the first "+"
-     requested mand src k
-                      what the source asks for the alternative named k:
+     plus_form0 src   every word bare and un-starred, a "+" somewhere, no blank piece after the first "+"
+     full_list m src  the values of the source words are exactly the master's alternatives (the master
+                      words' values with the selection star removed; same case, same order): what
+                      format writes when nothing is selected
+     plus_form m src  plus_form0 src and not full_list m src: the source is read as the a+b form
+                      (the complete list is never read so, also if names contain "+")
+     requested mand m src k
+                      what the source asks for the alternative named k of the master m:
                         plain None and not mandatory     -> false
                         "+" form                          -> k is (up to case) one of the names joined with "+"
                         otherwise                         -> the LAST word naming k is starred, or is the only word
@@ -32,9 +37,9 @@ Print Assumptions C11_alternatives_kept.
 (* The result is the master with exactly the requested alternatives starred. *)
 Theorem C11_selection : forall opt m src ign r,
   choice_fetch opt m src ign = Ok r -> is_plain_auto src = false ->
-  r = map (fun w => restar (requested (mandatory opt) src (key w)) w) m
+  r = map (fun w => restar (requested (mandatory opt) m src (key w)) w) m
   /\ (wf_choice_master m = true ->
-        map (fun w => starts_star (wv w)) r = map (fun w => requested (mandatory opt) src (key w)) m).
+        map (fun w => starts_star (wv w)) r = map (fun w => requested (mandatory opt) m src (key w)) m).
 Proof. exact selection. Qed.
 Print Assumptions C11_selection.
 
@@ -42,7 +47,7 @@ Print Assumptions C11_selection.
 Theorem C11_last_occurrence_decides : forall opt m pre w post ign r a,
   let src := pre ++ w :: post in
   choice_fetch opt m src ign = Ok r -> is_plain_auto src = false ->
-  (mandatory opt || negb (is_plain_none src)) = true -> plus_form src = false ->
+  (mandatory opt || negb (is_plain_none src)) = true -> plus_form m src = false ->
   (forall p, In p post -> key p <> key w) ->
   In a m -> key a = key w ->
   In (restar (starts_star (wv w) || (length src =? 1)%nat) a) r.
@@ -63,7 +68,7 @@ Theorem C11_unknown_selected_errors : forall opt m pre w post,
   let src := pre ++ w :: post in
   let sg := (length src =? 1)%nat in
   master_ok m = true -> is_plain_auto src = false ->
-  (mandatory opt || negb (is_plain_none src)) = true -> plus_form src = false ->
+  (mandatory opt || negb (is_plain_none src)) = true -> plus_form m src = false ->
   flagged sg w = true -> mems (key w) (keys m) = false ->
   (forall p, In p pre -> flagged sg p = true -> mems (key p) (keys m) = true) ->
   choice_fetch_x opt m src false = FNotAChoice (unstar (wv w)) (wline w) (map wv m).
@@ -72,7 +77,7 @@ Print Assumptions C11_unknown_selected_errors.
 
 (* The same in the "+" form: the first joined name that is not an alternative (up to case). *)
 Theorem C11_unknown_selected_errors_plus : forall opt m src ign pre v l post,
-  master_ok m = true -> plus_form src = true ->
+  master_ok m = true -> plus_form m src = true ->
   plus_pieces src = pre ++ (v, l) :: post ->
   (forall p, In p pre -> mems (lowers (fst p)) (keys m) = true) -> mems (lowers v) (keys m) = false ->
   choice_fetch_x opt m src ign = FNotAChoice v l (map wv m).
@@ -85,11 +90,11 @@ Print Assumptions C11_unknown_selected_errors_plus.
 Theorem C11_selected_unknown_never_dropped : forall opt m src,
   master_ok m = true -> is_plain_auto src = false ->
   (mandatory opt || negb (is_plain_none src)) = true ->
-  (plus_form src = false ->
+  (plus_form m src = false ->
      (exists w, In w src /\ flagged (length src =? 1)%nat w = true /\ mems (key w) (keys m) = false) ->
      exists w, In w src /\ flagged (length src =? 1)%nat w = true /\ mems (key w) (keys m) = false
        /\ choice_fetch_x opt m src false = FNotAChoice (unstar (wv w)) (wline w) (map wv m)) /\
-  (plus_form src = true -> forall ign,
+  (plus_form m src = true -> forall ign,
      (exists n, In n (plus_names src) /\ mems (lowers n) (keys m) = false) ->
      exists v l, In (v, l) (plus_pieces src) /\ mems (lowers v) (keys m) = false
        /\ choice_fetch_x opt m src ign = FNotAChoice v l (map wv m)).
@@ -99,7 +104,7 @@ Print Assumptions C11_selected_unknown_never_dropped.
 (* The "+" form is case-insensitive like the other spellings: when every joined name is an
    alternative up to case, exactly those alternatives are starred (formerly refuted for "A+b"). *)
 Theorem C11_plus_case_insensitive : forall opt m src ign,
-  master_ok m = true -> plus_form src = true ->
+  master_ok m = true -> plus_form m src = true ->
   (forall n, In n (plus_names src) -> mems (lowers n) (keys m) = true) ->
   choice_fetch opt m src ign =
     Ok (map (fun w => restar (mems (key w) (map lowers (plus_names src))) w) m).
@@ -111,10 +116,10 @@ Print Assumptions C11_plus_case_insensitive.
 Theorem C11_error_sound : forall opt m src ign v l alts,
   choice_fetch_x opt m src ign = FNotAChoice v l alts ->
   alts = map wv m /\
-  (plus_form src = false ->
+  (plus_form m src = false ->
      ign = false /\ exists pre w post, src = pre ++ w :: post /\ v = unstar (wv w) /\ l = wline w
        /\ flagged (length src =? 1)%nat w = true /\ mems (key w) (keys m) = false) /\
-  (plus_form src = true -> In (v, l) (plus_pieces src) /\ mems (lowers v) (keys m) = false).
+  (plus_form m src = true -> In (v, l) (plus_pieces src) /\ mems (lowers v) (keys m) = false).
 Proof. exact error_sound. Qed.
 Print Assumptions C11_error_sound.
 
@@ -122,7 +127,7 @@ Print Assumptions C11_error_sound.
 Theorem C11_unknown_unselected_ignored : forall opt m pre u post ign,
   (2 <= length (pre ++ post))%nat ->
   starts_star (wv u) = false -> mems (key u) (keys m) = false ->
-  plus_form (pre ++ post) = false -> plus_form (pre ++ u :: post) = false ->
+  plus_form m (pre ++ post) = false -> plus_form m (pre ++ u :: post) = false ->
   choice_fetch_x opt m (pre ++ u :: post) ign = choice_fetch_x opt m (pre ++ post) ign.
 Proof. exact unknown_unselected_ignored. Qed.
 Print Assumptions C11_unknown_unselected_ignored.
@@ -179,9 +184,37 @@ Print Assumptions C11_single_name_selects.
 
 (* With ignore_errors (skip_incompatible_objects) the normal form never raises. *)
 Theorem C11_ignore_errors_normal : forall opt m src v l alts,
-  plus_form src = false -> choice_fetch_x opt m src true <> FNotAChoice v l alts.
+  plus_form m src = false -> choice_fetch_x opt m src true <> FNotAChoice v l alts.
 Proof. exact ignore_errors_normal. Qed.
 Print Assumptions C11_ignore_errors_normal.
+
+(* The complete list of the alternatives written without a star (what format writes when nothing is
+   selected; any quoting, any .optional, any ignore_errors) for a well-formed master with at least
+   two alternatives: it is not read as the a+b form EVEN IF names contain "+", it is accepted, no
+   alternative comes back starred, and the values that come back are those of the source
+   (formerly "Not a possible choice: x" for the alternatives x+y z x+y+z). *)
+Theorem C11_full_list_selects_nothing : forall opt m src ign,
+  wf_choice_master m = true -> full_list m src = true -> (2 <= length src)%nat ->
+  plus_form m src = false
+  /\ choice_fetch opt m src ign = Ok (map (restar false) m)
+  /\ map (fun w => starts_star (wv w)) (map (restar false) m) = map (fun _ => false) m
+  /\ map wv (map (restar false) m) = map wv src.
+Proof. exact full_list_selects_nothing. Qed.
+Print Assumptions C11_full_list_selects_nothing.
+
+(* More generally: several words, none starred, not the a+b form - nothing is selected, nothing raises. *)
+Theorem C11_unstarred_list_selects_nothing : forall opt m src ign,
+  master_ok m = true -> (2 <= length src)%nat -> plus_form m src = false ->
+  (forall w, In w src -> starts_star (wv w) = false) ->
+  choice_fetch opt m src ign = Ok (map (restar false) m).
+Proof. exact unstarred_list_selects_nothing. Qed.
+Print Assumptions C11_unstarred_list_selects_nothing.
+
+(* The boundary: only an incomplete (or differently spelled) list can be the a+b form. *)
+Theorem C11_plus_form_needs_incomplete_list : forall m src,
+  plus_form m src = true -> full_list m src = false.
+Proof. exact plus_form_needs_incomplete_list. Qed.
+Print Assumptions C11_plus_form_needs_incomplete_list.
 
 (* Outside wf_choice_master the names are not kept: an alternative written **a comes back as *a,
    i.e. as the selected alternative a. *)
@@ -215,7 +248,7 @@ Proof. vm_compute. split; reflexivity. Qed.
 
 (* + form with blanks around + and a leading + ; extraction in master order *)
 Example C11_example_plus :
-  plus_form [uw (s_ "+c_d"); uw (s_ "+"); uw (s_ "ab")] = true
+  plus_form ex_master [uw (s_ "+c_d"); uw (s_ "+"); uw (s_ "ab")] = true
   /\ choice_fetch ANone ex_master [uw (s_ "+c_d"); uw (s_ "+"); uw (s_ "ab")] false
      = Ok [mkword (s_ "*Ab") QN 1; mkword (s_ "*c_d") QN 1; mkword (s_ "x y") Q1 2]
   /\ choice_from_words true ANone [mkword (s_ "*Ab") QN 1; mkword (s_ "*c_d") QN 1; mkword (s_ "x y") Q1 2]
@@ -254,4 +287,21 @@ Example C11_example_former_findings :
     = UErr (s_ "NotAChoice") (s_ "x") 0
   /\ choice_fetch ANone [uw (s_ "a"); uw (s_ "b")] [uw (s_ "x"); uw (s_ "*x")] true
     = Ok [uw (s_ "a"); uw (s_ "b")].
+Proof. vm_compute. repeat split; reflexivity. Qed.
+
+(* the complete list of alternatives whose names contain "+": accepted, nothing selected (formerly
+   FNotAChoice "x"); an incomplete list of the same names is still the a+b form *)
+Definition ex_plus_master : list word := [uw (s_ "x+y"); uw (s_ "z"); uw (s_ "x+y+z")].
+Example C11_full_list_example :
+  wf_choice_master ex_plus_master = true
+  /\ full_list ex_plus_master ex_plus_master = true
+  /\ plus_form0 ex_plus_master = true
+  /\ plus_form ex_plus_master ex_plus_master = false
+  /\ choice_fetch_x ANone ex_plus_master [uw (s_ "x+y"); uw (s_ "z"); uw (s_ "x+y+z")] false
+     = FOk [uw (s_ "x+y"); uw (s_ "z"); uw (s_ "x+y+z")]
+  /\ choice_fetch_x (ABool false) ex_plus_master [uw (s_ "x+y"); uw (s_ "z"); uw (s_ "x+y+z")] false
+     = FOk [uw (s_ "x+y"); uw (s_ "z"); uw (s_ "x+y+z")]
+  /\ plus_form ex_plus_master [uw (s_ "x+y"); uw (s_ "z")] = true
+  /\ choice_fetch_x ANone ex_plus_master [uw (s_ "x+y"); uw (s_ "z")] false
+     = FNotAChoice (s_ "x") 0 [s_ "x+y"; s_ "z"; s_ "x+y+z"].
 Proof. vm_compute. repeat split; reflexivity. Qed.
